@@ -39,7 +39,7 @@ CONFIG = {
                  'reach:_checkEG:T.update(scc)',
                  'EG.trivial_scc_rejected', 'memo.hit',
                  'root:A.U', 'root:E.R', 'root:A.R', 'root:imply',
-                 'style:text', 'style:raw', 'style:ctls_obj'],
+                 'style:text', 'style:raw', 'style:ctls_obj', 'states:renamed'],
     'rule': ('cases = (Kripke structure, CTL state formula, presentation '
              'style); enumerated: isomorphism-class representatives of all '
              'total structures with <=3 states over {p,q} x all formulas of '
@@ -247,12 +247,54 @@ def hostile_formulas():
 _parser = [None]
 
 
+NAMINGS = [None,
+           lambda i: 's%d' % i,
+           lambda i: (i, 'x'),
+           lambda i: 'state_%s' % 'abcdefghij'[i],
+           lambda i: frozenset([i, 'f'])]
+
+
+def rename_states(nk, k):
+    f = NAMINGS[k % len(NAMINGS)]
+    if f is None:
+        return nk
+    LOG.sig['states:renamed'] += 1
+    return NK([f(i) for i in range(nk.n)], nk.succ, nk.labels)
+
+
+def deep_formulas():
+    """Depth >= 3, repeated subformulas, n-ary operators, until/release
+    chains: shapes the depth-<=2 enumeration cannot contain."""
+    p, q, r_ = ('ap', 'p'), ('ap', 'q'), ('ap', 'r')
+    EUpq = ('E', ('U', p, q))
+    out = [
+        ('A', ('G', ('imply', p, ('A', ('F', ('and', q, ('E', ('X', p)))))))),
+        ('E', ('U', ('A', ('U', p, q)), ('E', ('G', ('not', p))))),
+        ('A', ('U', ('E', ('U', p, q)), ('A', ('R', q, p)))),
+        ('E', ('R', ('E', ('R', p, q)), ('A', ('U', q, p)))),
+        ('and', EUpq, ('not', q), ('or', p, EUpq)),
+        ('or', ('A', ('G', p)), ('not', p), ('E', ('F', ('A', ('G', p))))),
+        ('imply', ('imply', EUpq, q), ('imply', q, EUpq)),
+        ('E', ('G', ('or', p, q, r_))), ('A', ('F', ('and', p, q, r_))),
+        ('E', ('U', ('or', p, r_), ('and', q, ('E', ('G', ('or', p, q)))))),
+        ('A', ('G', ('E', ('F', ('A', ('G', ('or', p, ('not', q)))))))),
+        ('E', ('G', ('E', ('U', p, ('E', ('G', q)))))),
+        ('A', ('R', ('E', ('X', p)), ('or', q, ('A', ('X', ('A', ('X', p))))))),
+        ('not', ('E', ('U', ('not', ('E', ('U', p, q))), ('not', q)))),
+        ('and', ('E', ('F', p)), ('E', ('F', p)), ('E', ('F', q))),
+        ('E', ('X', ('A', ('U', ('E', ('X', p)), ('A', ('X', q)))))),
+        ('A', ('U', ('or', p, q), ('and', ('E', ('G', p)), ('E', ('G', q))))),
+        ('E', ('F', ('and', p, ('E', ('X', ('and', q, ('E', ('X', p)))))))),
+    ]
+    return out
+
+
 def run_case(nk, t, i, K=None):
     from pyModelChecking import CTL
     style = mcwork.STYLES[i % 4]
     LOG.sig['style:' + style] += 1
     if K is None:
-        K = mcwork.kripke_of(nk)
+        K = mcwork.kripke_of(nk, list(nk.states))
     f = mcwork.formula_arg('CTL', t, style)
     try:
         if style == 'text' and i % 128 != 2:
@@ -297,7 +339,7 @@ def run(ctx):
         structs = reps[1] + reps[2] + r.sample(reps[3], 300)
         f2s = r.sample(F2, 1200)
         structs2 = reps[1] + r.sample(reps[2], 20) + r.sample(reps[3], 40)
-        nrandom = 2000
+        nrandom = 8000
     else:
         structs = []
         for n in (1, 2, 3):
@@ -331,19 +373,20 @@ def run(ctx):
             i += 1
         _enum[0] = False
     # hostile shapes x (F1 + hostile formulas)
+    deep = deep_formulas()
     for si, nk in enumerate(hostile_structures()):
         if not ctx.mine(si):
             continue
-        for t in F1 + hf:
-            run_case(nk, t, i)
+        for t in F1 + hf + deep:
+            run_case(rename_states(nk, si + i), t, i)
             i += 1
     # seeded random
     for k in range(nrandom):
-        nk = gen.random_structure(r, 6)
-        t = gen.random_ctl(r, r.randint(1, 4))
+        nk = gen.random_structure(r, 6 if k % 4 else 8)
+        t = gen.random_ctl(r, r.randint(1, 4)) if k % 5 else r.choice(deep)
         if not ctx.mine(k):
             continue
-        run_case(nk, t, i)
+        run_case(rename_states(nk, k), t, i)
         i += 1
         if k % 200 == ctx.shard:
             self_check(nk, [t])
